@@ -332,13 +332,18 @@ mod imp {
                         self.stack.push(Slot::Val(CelValue::from_list(v)));
                     }
                     ByteCode::MkDict(n) => {
-                        let mut m = HashMap::new();
+                        // entries are popped last-to-first; the entry that comes last in the source wins
+                        let mut entries = Vec::new();
                         for _ in 0..*n {
                             let k = match self.pop_val()? {
                                 CelValue::String(k) => k,
                                 _ => return Err(CelError::value("Only strings can be used as Object keys")),
                             };
                             let v = self.pop_val()?;
+                            entries.push((k, v));
+                        }
+                        let mut m = HashMap::new();
+                        for (k, v) in entries.into_iter().rev() {
                             m.insert(k, v);
                         }
                         self.stack.push(Slot::Val(CelValue::from_map(m)));
@@ -578,6 +583,28 @@ mod imp {
         json!({"round_trips": out})
     }
 
+    pub fn token_mode(input: &Value) -> Value {
+        use rscel::verif_hooks::Token;
+        use rscel::{StringTokenizer, Tokenizer};
+        let text = input["text"].as_str().unwrap_or("").to_string();
+        let mut t = StringTokenizer::with_input(&text);
+        match t.next() {
+            Err(e) => json!({"error": format!("{:?}", e)}),
+            Ok(None) => json!({"none": true}),
+            Ok(Some(tok)) => {
+                let span = json!([tok.loc.start().line(), tok.loc.start().col(), tok.loc.end().line(), tok.loc.end().col()]);
+                let rest = matches!(t.next(), Ok(Some(_)));
+                match tok.token {
+                    Token::IntLit(v) => json!({"kind": "IntLit", "value": v.to_string(), "span": span, "more": rest}),
+                    Token::UIntLit(v) => json!({"kind": "UIntLit", "value": v.to_string(), "span": span, "more": rest}),
+                    Token::FloatLit(v) => json!({"kind": "FloatLit", "bits": v.to_bits().to_string(), "span": span, "more": rest}),
+                    Token::StringLit(v) => json!({"kind": "StringLit", "chars": v.chars().map(|c| c as u32).collect::<Vec<u32>>(), "span": span, "more": rest}),
+                    other => json!({"kind": format!("{:?}", other), "span": span, "more": rest}),
+                }
+            }
+        }
+    }
+
     pub fn main() {
         let mode = std::env::args().nth(1).unwrap_or_default();
         let mut s = String::new();
@@ -592,6 +619,7 @@ mod imp {
                     "vm" => guarded(|| vm_mode(&v)),
                     "resolve" => guarded(|| resolve_mode(&v)),
                     "serde" => guarded(|| serde_mode(&v)),
+                    "token" => guarded(|| token_mode(&v)),
                     _ => json!({"error": "mode"}),
                 }
             })
